@@ -281,6 +281,30 @@ func (h H) storageExclusivity(rule string) {
 	})
 	h.C.Check(rule+" unlock-deferred", "(*Raft).Serve unlock count", nUn == 1, h.fpos(sv), fmt.Sprintf("expected one deferred unlockDir, found %d", nUn))
 	_ = lock
+	// SetIdentity: the same discipline — the deferred function that unlocks is
+	// registered only once lockDir succeeded (a refused caller must not delete
+	// the lock of the instance that holds it)
+	si := h.fn("raft:SetIdentity")
+	sfi := h.P.Info(si)
+	siLock := core.MkAtom("lockDir($0)", "==", "nil")
+	nSI := 0
+	core.Instrs(si, func(in ssa.Instruction) {
+		d, ok := in.(*ssa.Defer)
+		if !ok {
+			return
+		}
+		unlocks := d.Call.StaticCallee() == unlock
+		if cl := core.ClosureOf(d.Call.Value); cl != nil && len(h.P.CallsTo(cl, unlock)) > 0 {
+			unlocks = true
+		}
+		if !unlocks {
+			return
+		}
+		nSI++
+		r := sfi.MustCrossAtom(d, siLock)
+		h.C.Check(rule+" unlock-deferred", "SetIdentity defer unlockDir", r.OK, h.pos(d), "SetIdentity registers the unlock before it holds the lock: a call refused with ErrLockExists removes the serving instance's lock file: "+r.Witness)
+	})
+	h.C.Check(rule+" unlock-deferred", "SetIdentity unlock count", nSI == 1, h.fpos(si), fmt.Sprintf("expected one deferred unlockDir in SetIdentity, found %d", nSI))
 	// lockDir: nil only after a successful hard link and the same-file confirmation
 	ts := h.simAll().Run(lock)
 	nOK := 0
@@ -297,8 +321,6 @@ func (h H) storageExclusivity(rule string) {
 	}
 	h.C.Floor(rule+" (lockDir success paths)", nOK, 1)
 	// SetIdentity: val.set only under the lock and only when no identity is stored
-	si := h.fn("raft:SetIdentity")
-	sfi := h.P.Info(si)
 	set := h.fn("raft:(*value).set")
 	for k, c := range h.P.CallsTo(si, set) {
 		site := h.site(si, set, k)
@@ -392,4 +414,35 @@ func (h H) staleSnapshotIgnored(rule string) {
 		h.C.Check(rule+" commit-index-from-snapshot", "(*Raft).onInstallSnapRequest store commitIndex", isSnapIndexExpr(v, "Raft.storage"), h.pos(s.Instr), "after discarding the log the commit index must be the snapshot index; found "+v)
 	}
 	h.C.Floor(rule+" (state changes in install handler)", n, 4)
+}
+
+// failedConnNotReused (C01.6 / C18.8 / C20.1b): requests and replies on a
+// connection are matched by position. A connection on which an RPC failed
+// (time-out included: the peer may still answer) must be closed, never handed
+// back to the pool: the late reply would be read as the answer to the next
+// request — a vote granted for term T counted in the election of term T+1.
+func (h H) failedConnNotReused(rule string) {
+	fn := h.fn("raft:(*connPool).doRPC")
+	fi := h.P.Info(fn)
+	rc := h.fn("raft:(*connPool).returnConn")
+	rpc := h.fn("raft:(*conn).doRPC")
+	calls := h.P.CallsTo(fn, rpc)
+	if !h.C.Check(rule+" shape", "(*connPool).doRPC", len(calls) == 1, h.fpos(fn), "expected one (*conn).doRPC call") {
+		return
+	}
+	okAtom := core.MkAtom(fi.Sym(calls[0].Value()).String(), "==", "nil")
+	n := 0
+	for k, c := range h.P.CallsTo(fn, rc) {
+		n++
+		same := fi.Sym(c.Common().Args[1]).String() == fi.Sym(calls[0].Common().Args[0]).String()
+		r := fi.MustCrossAtom(c.(ssa.Instruction), okAtom)
+		h.C.Check(rule+" returned-only-after-success", h.site(fn, rc, k), same && r.OK, h.pos(c.(ssa.Instruction)), "a connection is handed back to the pool although the RPC on it failed (its late reply would answer the next request): "+r.Witness)
+	}
+	h.C.Floor(rule+" (returnConn in connPool.doRPC)", n, 1)
+	// on the failure edge the connection is closed
+	r := fi.AlwaysFollowedFrom(calls[0].Block(), len(calls[0].Block().Instrs)-1, func(x ssa.Instruction) bool {
+		ci, ok := x.(ssa.CallInstruction)
+		return ok && ci.Common().IsInvoke() && ci.Common().Method.Name() == "Close"
+	}, func(a core.Atom) bool { return a.Implies(okAtom) })
+	h.C.Check(rule+" closed-on-failure", "(*connPool).doRPC failure edge", r.OK, h.fpos(fn), "after a failed RPC the connection is neither closed nor … : "+r.Witness)
 }
